@@ -24,7 +24,9 @@ CONSTANTS
   SampleMod, SamplePick,  \* graph mode: emit when Hash(state, symbol) % SampleMod = SamplePick
   ValidOnly,    \* TRUE: random walks take only steps that keep the document acceptable to the scan stage
                 \* (and use no MACRO / PASTE), so that long well-nested documents reach the later stages
-  MaxInc        \* INCLUDE nesting depth explored (0: single-file documents only)
+  MaxInc,       \* INCLUDE nesting depth explored (0: single-file documents only)
+  OneKw         \* TRUE (simulation only): one random keyword per step, so that "(", ")" and the file boundaries are
+                \* taken as often as a keyword
 
 VARIABLES chain, pend, st, doc,
           inc        \* number of included files being read (scanner stack depth)
@@ -169,7 +171,8 @@ Placeable(k, p) == /\ k \notin {"MACRO", "PASTE", "JSIGHT"}
                    /\ Walk(Flushed, [k |-> k, x |-> FALSE, p |-> p, id |-> 0, f |-> FALSE]) # RejectCh
 Next ==
   \/ /\ (History => Len(doc) < MaxLen)
-     /\ \/ (~ValidOnly /\ \E s \in KwSyms : Keyword(s.k, s.p))
+     /\ \/ (~ValidOnly /\ ~OneKw /\ \E s \in KwSyms : Keyword(s.k, s.p))
+        \/ (~ValidOnly /\ OneKw /\ LET s == RandomElement(KwSyms) IN Keyword(s.k, s.p))
         \* valid-only walks: ONE random placeable keyword, so that "(" and ")" are taken as often as keywords
         \/ (ValidOnly /\ {s \in KwSyms : Placeable(s.k, s.p)} # {}
              /\ LET s == RandomElement({x \in KwSyms : Placeable(x.k, x.p)}) IN Keyword(s.k, s.p))
